@@ -6,10 +6,15 @@ import (
 	"github.com/resonatehq/resonate/internal/app/subsystems/api/grpc/pb"
 	"github.com/resonatehq/resonate/internal/kernel/t_api"
 	"github.com/resonatehq/resonate/internal/util"
+	"google.golang.org/grpc/codes"
 	"google.golang.org/grpc/status"
 )
 
 func (s *server) AcquireLock(c context.Context, r *pb.AcquireLockRequest) (*pb.AcquireLockResponse, error) {
+	if r.Ttl < 0 {
+		return nil, status.Error(codes.InvalidArgument, "The field ttl must be greater than or equal to zero")
+	}
+
 	res, err := s.api.Process(r.RequestId, &t_api.Request{
 		Kind: t_api.AcquireLock,
 		AcquireLock: &t_api.AcquireLockRequest{
